@@ -32,15 +32,43 @@ type c14table struct {
 	OIDs     []uint32
 	Rows     [][]any
 	Trailer  bool
-	NoHeader bool // the stream starts with the first row (the file header is optional for the row reader)
+	NoHeader bool   // the stream starts with the first row (the file header is optional for the row reader)
+	Flags    uint32 // header flags field: bits 0-15 are reserved for non-critical uses, readers ignore them
+	Ext      []byte // header extension area, skipped by readers
+}
+
+func (t c14table) header() []byte {
+	if t.NoHeader {
+		return nil
+	}
+	h := append([]byte{}, c14header[:11]...)
+	h = binary.BigEndian.AppendUint32(h, t.Flags)
+	h = binary.BigEndian.AppendUint32(h, uint32(len(t.Ext)))
+	return append(h, t.Ext...)
+}
+
+func (t c14table) hdrLen() int { return len(t.header()) }
+
+// headerVariant gives one table in two another beginning of the stream: none, low flag bits, an extension area.
+func (t *c14table) headerVariant(rng *core.Rng) string {
+	switch rng.Intn(6) {
+	case 0:
+		t.NoHeader = true
+		return "no-header"
+	case 1:
+		t.Flags = core.Pick(rng, []uint32{1, 0x100, 0x8000, 0xffff, uint32(rng.Intn(1 << 16))})
+		return "flags"
+	case 2:
+		t.Ext = rng.Bytes(1 + rng.Intn(24))
+		return "extension"
+	}
+	return ""
 }
 
 var c14header = append([]byte("PGCOPY\n\377\r\n\000"), 0, 0, 0, 0, 0, 0, 0, 0)
 
 func (t c14table) encode() (stream []byte, rowEnds []int) {
-	if !t.NoHeader {
-		stream = append(stream, c14header...)
-	}
+	stream = append(stream, t.header()...)
 	for _, r := range t.Rows {
 		stream = binary.BigEndian.AppendUint16(stream, uint16(len(r)))
 		for i, v := range r {
@@ -285,8 +313,15 @@ func (ch c14) Run(c *core.Ctx) {
 		rng := core.NewRng(c.Seed, "C14", c.Batch, i)
 		small := i%2 == 0
 		t := c14gen(rng, small)
+		if hv := t.headerVariant(rng); hv != "" {
+			c.Count("streams_with_header_variant_"+hv, 1)
+		}
 		stream, rowEnds := t.encode()
-		cs := map[string]any{"oids": t.OIDs, "rows": len(t.Rows), "trailer": t.Trailer, "stream_len": len(stream)}
+		if len(stream) == 0 {
+			t.NoHeader = false
+			stream, rowEnds = t.encode()
+		}
+		cs := map[string]any{"oids": t.OIDs, "rows": len(t.Rows), "trailer": t.Trailer, "stream_len": len(stream), "no_header": t.NoHeader, "flags": t.Flags, "extension": len(t.Ext)}
 		nulls := 0
 		for _, r := range t.Rows {
 			for _, v := range r {
@@ -299,7 +334,7 @@ func (ch c14) Run(c *core.Ctx) {
 		if t.Trailer {
 			c.Count("with_trailer", 1)
 		}
-		isRowEnd := map[int]bool{len(c14header): true}
+		isRowEnd := map[int]bool{t.hdrLen(): true}
 		for _, e := range rowEnds {
 			isRowEnd[e] = true
 		}
@@ -450,7 +485,7 @@ func (ch c14) truncated(c *core.Ctx, env *hs.Env, t c14table, stream []byte, row
 	}
 	c.Count("truncation_points", 1)
 	complete := 0
-	boundary := cut == len(c14header)
+	boundary := cut == t.hdrLen()
 	for _, e := range rowEnds {
 		if e <= cut {
 			complete++
@@ -460,11 +495,11 @@ func (ch c14) truncated(c *core.Ctx, env *hs.Env, t c14table, stream []byte, row
 		}
 	}
 	what := fmt.Sprintf("stream truncated at offset %d of %d", cut, len(stream))
-	c.Eval(fmt.Sprintf("%v trunc boundary=%v hdr=%v", t.OIDs, boundary, cut < len(c14header)), true)
+	c.Eval(fmt.Sprintf("%v trunc boundary=%v hdr=%v", t.OIDs, boundary, cut < t.hdrLen()), true)
 	if !ch.checkRows(c, t, obs, -1, "", what, cs) {
 		return false
 	}
-	if cut < len(c14header) {
+	if cut < t.hdrLen() {
 		// inside the header: nothing may come back as a row, and it is not a clean stream
 		if len(obs.Rows) != 0 {
 			c.Violate("fabricated-row", "rows returned from a stream that ends inside the header", what, cs)
@@ -485,14 +520,14 @@ func (ch c14) truncated(c *core.Ctx, env *hs.Env, t c14table, stream []byte, row
 		return false
 	}
 	if !boundary && obs.End != "error" {
-		c.Violate("corruption-accepted", "truncated row or trailer reported as a clean end of stream", fmt.Sprintf("%s: reader end=%s, the cut is %d byte(s) past the last row boundary", what, obs.End, cut-lastBoundary(rowEnds, cut)), cs)
+		c.Violate("corruption-accepted", "truncated row or trailer reported as a clean end of stream", fmt.Sprintf("%s: reader end=%s, the cut is %d byte(s) past the last row boundary", what, obs.End, cut-lastBoundary(t.hdrLen(), rowEnds, cut)), cs)
 		return false
 	}
 	return true
 }
 
-func lastBoundary(rowEnds []int, cut int) int {
-	b := len(c14header)
+func lastBoundary(hdr int, rowEnds []int, cut int) int {
+	b := hdr
 	for _, e := range rowEnds {
 		if e <= cut {
 			b = e
@@ -503,7 +538,7 @@ func lastBoundary(rowEnds []int, cut int) int {
 
 func (ch c14) corrupt(c *core.Ctx, env *hs.Env, t c14table, stream []byte, rowEnds []int, rng *core.Rng, cs any) {
 	ri := rng.Intn(len(t.Rows))
-	rowStart := len(c14header)
+	rowStart := t.hdrLen()
 	if ri > 0 {
 		rowStart = rowEnds[ri-1]
 	}
@@ -639,7 +674,13 @@ func (ch c14) corrupt(c *core.Ctx, env *hs.Env, t c14table, stream []byte, rowEn
 		c.Count("corruptions_run", 1)
 		c.Count("aborts_run", 1)
 		c.Eval(fmt.Sprintf("%v abort inrow=%v", t.OIDs, at != rowStart), true)
-		if !ch.checkRows(c, t, obs, ri, "error", "CopyFail after part of the stream", cs) {
+		wantRows := ri
+		if t.NoHeader && at < 19 {
+			// fewer bytes than a header, then the abort: a reader still looking for the optional header
+			// reports the abort before the rows (the rows of an aborted COPY are not owed)
+			wantRows = -1
+		}
+		if !ch.checkRows(c, t, obs, wantRows, "error", "CopyFail after part of the stream", cs) {
 			return
 		}
 		if obs.Reply != "TGEZZTGCZZ" {
